@@ -268,12 +268,16 @@ var RSASizes = []int{1024, 2048, 3072, 4096}
 // AllKeySpecs lists every key/scheme/hash combination the library under test
 // claims to support: RSA PKCS#1 v1.5 and RSASSA-PSS over RSASizes, ECDSA over
 // the NIST and brainpool curves with named and with explicit parameters, each
-// with every hash.
+// with every hash (RSASSA-PSS uses MGF1 with the same hash, salt length = hash
+// length, trailer 1; 1024-bit PSS with SHA-512 does not exist and is left out).
 func AllKeySpecs() []KeySpec {
 	var out []KeySpec
 	for _, kind := range []string{"rsa", "rsa-pss"} {
 		for _, bits := range RSASizes {
 			for _, h := range Hashes {
+				if kind == "rsa-pss" && bits == 1024 && h == "sha512" {
+					continue // emLen 128 < hLen + sLen + 2 = 130: not encodable (RFC 8017 9.1.1)
+				}
 				out = append(out, KeySpec{Kind: kind, Bits: bits, Hash: h})
 			}
 		}
@@ -295,7 +299,7 @@ func CoveringKeySpecs() []KeySpec {
 		{Kind: "rsa", Bits: 2048, Hash: "sha256"},
 		{Kind: "rsa", Bits: 1024, Hash: "sha1"},
 		{Kind: "rsa-pss", Bits: 2048, Hash: "sha256"},
-		{Kind: "rsa-pss", Bits: 1024, Hash: "sha512"},
+		{Kind: "rsa-pss", Bits: 1024, Hash: "sha384"},
 		{Kind: "ecdsa", Curve: "P-256", Hash: "sha256"},
 		{Kind: "ecdsa", Curve: "brainpoolP256r1", ExplicitParams: true, Hash: "sha256"},
 		{Kind: "ecdsa", Curve: "P-521", Hash: "sha512"},
